@@ -868,6 +868,13 @@ static Boolean ValidIndexRegSize(tSymbolSize Size) {
 
 static Boolean ClassCompList(tAdrComps* pComps, tStrComp* pArg);
 
+/* The architecture knows one level of inner indirection. Deeper nesting is
+   still parsed (and refused afterwards), but not to an arbitrary depth. */
+
+#define INDIR_NESTMAX 16
+
+static unsigned IndirNestLevel = 0;
+
 static Boolean ClassComp(tStrComp* pArg, tAdrComps* pComps) {
     tSymbolSize OpSize;
     Byte        Reg, Scale, Prefix;
@@ -902,8 +909,14 @@ static Boolean ClassComp(tStrComp* pArg, tAdrComps* pComps) {
             return False;
         }
 
+        if (IndirNestLevel >= INDIR_NESTMAX) {
+            return False;
+        }
         StrCompRefRight(&InnerList, pArg, 1);
-        if (!ClassCompList(&InnerComps, &InnerList)) {
+        IndirNestLevel++;
+        OK = ClassCompList(&InnerComps, &InnerList);
+        IndirNestLevel--;
+        if (!OK) {
             return False;
         }
         if (!InnerComps.InnerDispPresent && (InnerComps.InnerReg == NOREG)
